@@ -288,6 +288,10 @@ impl Scenario for C04 {
     fn name(&self) -> &'static str {
         "c04-gc"
     }
+    fn timeout_ms(&self) -> u64 {
+        // runs with a collection at every allocation take seconds on a loaded machine
+        150_000
+    }
     fn property(&self) -> &'static str {
         "C04"
     }
